@@ -324,16 +324,19 @@ def w_history(case):
                          % (role, diff), 'history': lab, 'expected': strip(at_copy),
                          'observed': strip(now),
                          'behaviour': 'copy_indep'})
+    # (models copied on the way are part of the state: a history that ends in a
+    # copy must be extended, although the model carried on looks the same)
     state = key_of([kind, strip(obs_key(obs)), mach.adm, mach.reg, mach.outs,
-                    mach.sens])
+                    mach.sens, [[role, key_of(strip(at_copy))]
+                                for _, at_copy, role in others]])
     return {'state': state, 'transitions': len(history) + 4,
             'outcome': state, 'violations': viol}
 
 
 # ----------------------------------------------- reduced mechanistic model histories
 
-RED_OPS = ['fix0', 'fixlast', 'relall', 'reg1', 'reg2', 'out1', 'out2', 'sensOn',
-           'sensOff', 'sim', 'copyC', 'copyO', 'renP']
+RED_OPS = ['fix0', 'fixlast', 'refix', 'rel0', 'relall', 'reg1', 'reg2', 'out1',
+           'out2', 'sensOn', 'sensOff', 'sim', 'copyC', 'copyO', 'renP']
 
 
 def red_probe(rm, fixed_pos, n_full):
@@ -389,6 +392,22 @@ def w_red_history(case):
                 continue      # known finding F-C08-all-fixed-sens, decided in C08
             rm.fix_parameters({names[free.index(j)]: 0.7 + 0.1 * j})
             fixed[j] = 0.7 + 0.1 * j
+        elif op == 'refix':
+            # the first fixed parameter gets another value
+            if not fixed:
+                continue
+            j = min(fixed)
+            full_names = rm.mechanistic_model().parameters()
+            fixed[j] = 1.9 - fixed[j]
+            rm.fix_parameters({full_names[j]: fixed[j]})
+        elif op == 'rel0':
+            # only the first fixed parameter is released
+            if not fixed:
+                continue
+            j = min(fixed)
+            full_names = rm.mechanistic_model().parameters()
+            rm.fix_parameters({full_names[j]: None})
+            del fixed[j]
         elif op == 'relall':
             full_names = rm.mechanistic_model().parameters()
             rm.fix_parameters({n_: None for n_ in full_names})
@@ -511,7 +530,9 @@ def w_red_history(case):
                          'history': lab, 'expected': at_copy, 'observed': now,
                          'behaviour': 'red_copy_indep'})
     state = key_of([kind, {k: obs[k] for k in obs if k != 'probe_error'},
-                    sorted(fixed.items()), mach])
+                    sorted(fixed.items()), mach,
+                    [[sorted(of.items()), key_of(at_copy)]
+                     for _, of, at_copy in others]])
     return {'state': state, 'transitions': len(history) + 3, 'outcome': state,
             'violations': viol}
 
